@@ -49,9 +49,10 @@ axiom("derives_rule", props=["C10"], types={"a": "Any", "e": EXP, "i": "Int", "j
       why="definition: a nonterminal derives what one of its alternatives derives")
 axiom("nullable_sound", props=["C10"], types={"sym": "Any", "j": "Int"},
       body="implies(uf_bool('nullable', sym), D(sym, j, j))",
-      why="ASSUMED about the code: every element of self.epsilon = nullable(cgrammar) derives the empty string "
-          "(parser.nullable's fix-point computation is not verified; its completeness is what seed-style bugs hit "
-          "and is decided by the bounded check)")
+      why="glue ASSUMED: self.epsilon is nullable(self.cgrammar) (EarleyParser.__init__, one line), and a symbol that "
+          "derives the empty string (Eps) does so at every input position.  That nullable() returns only Eps-symbols, "
+          "and all of them, IS proved below (nullable_ / fixpoint.helper); nullable()'s own three lines (rules(), the "
+          "start set {EPSILON}, the decorator) are not")
 
 contract(PA + "Expr.__len__", props=["C10"], types={"self": EXP}, returns="Int", result_is="ELen(self)",
          assumed=True, why_assumed="abstract data type view of a tuple of grammar symbols")
@@ -130,3 +131,48 @@ lemma("earley_accepts_only_members", props=["C10"], types={"st": STA, "k": "Int"
       hyps="ChartOK() and 0 <= k and k < len(ChartCol(N() - 1).states) and st == ChartCol(N() - 1).states[k] and "
            "st.name == start and st.s_col.index == 0 and st.dot >= ELen(st.expr)",
       goal="D(start, 0, N() - 1)")
+
+
+# ---- parser.nullable: the fix-point computation behind `self.epsilon` (C10) ------------------------------------------
+# Eps(sym): sym derives the empty string.  The only fact used about it is its DEFINITION as a closure under the
+# rules: a symbol whose alternative consists of Eps-symbols only is Eps (pre-condition on `productions`).
+# Proved from the real text: one pass of nullable_ keeps the set sound (only Eps-symbols), never shrinks it and adds
+# the head of every rule whose tokens were already in the set; fixpoint's helper returns a set that is sound AND
+# CLOSED under the rules -- i.e. exactly the least fix point, which contains every nullable symbol (completeness:
+# by induction on the derivation, every Eps-symbol belongs to every closed set containing the base case).
+# Sets of symbols are characteristic predicates; `nullables |= {A}` mutates the argument in place and the function
+# returns it (modelled: the caller's variable denotes the updated set afterwards).  str(set) == str(set) is read as
+# equality of the sets (ASSUMED: the text of a set that only grows changes iff the set changes).
+SETT = "SetOf[Any]"
+PROD = "List[Tuple[Any,TupleOf[Any]]]"
+spec("Eps", "sym", "uf_bool('derives_eps', sym)")
+EPS_CLOSED = ("forall(k, 0, len(productions), implies(forall(t, 0, len(productions[k][1]), Eps(productions[k][1][t])), "
+              "Eps(productions[k][0])))")
+SOUND = "forall_sort(x, 'Any', implies(x in {S}, Eps(x)))"
+CLOSED = ("forall(k, 0, len(productions), implies(forall(t, 0, len(productions[k][1]), productions[k][1][t] in {S}), "
+          "productions[k][0] in {S}))")
+
+contract(PA + "nullable_expr", props=["C10"], types={"expr": "TupleOf[Any]", "nullables": SETT}, returns="Bool",
+         result_is="forall(t, 0, len(expr), expr[t] in nullables)", crosscheck=False)
+contract(PA + "nullable.<locals>.nullable_", props=["C10"], types={"nullables": SETT},
+         closure={"productions": PROD, "n0": SETT}, returns=SETT,
+         requires=f"{EPS_CLOSED} and n0 == nullables and " + SOUND.format(S="nullables"),
+         ensures={"sound": SOUND.format(S="result"),
+                  "never_shrinks": "forall_sort(x, 'Any', implies(x in n0, x in result))",
+                  "one_pass_adds_every_enabled_head":
+                      "forall(k, 0, len(productions), implies(forall(t, 0, len(productions[k][1]), "
+                      "productions[k][1][t] in n0), productions[k][0] in result))"},
+         loops={0: dict(invariant=SOUND.format(S="nullables") + " and forall_sort(x, 'Any', implies(x in n0, x in nullables)) and "
+                                  "forall(k, 0, _k, implies(forall(t, 0, len(productions[k][1]), productions[k][1][t] in n0), "
+                                  "productions[k][0] in nullables))")},
+         path_hints={"updates_argument": "nullables"}, crosscheck=False)
+contract(PA + "fixpoint.<locals>.helper", props=["C10"], types={"arg": SETT},
+         closure={"productions": PROD, "a0": SETT}, returns=SETT,
+         requires=f"{EPS_CLOSED} and a0 == arg and " + SOUND.format(S="arg"),
+         ensures={"sound": SOUND.format(S="result"),
+                  "closed_under_the_rules": CLOSED.format(S="result"),
+                  "contains_the_start_set": "forall_sort(x, 'Any', implies(x in a0, x in result))"},
+         loops={0: dict(invariant=SOUND.format(S="arg") + " and forall_sort(x, 'Any', implies(x in a0, x in arg))")},
+         path_hints={"calls": {"f(arg)": "call:nullable.<locals>.nullable_|arg, productions=productions, n0=arg", "str(arg)": "arg", "str(arg_)": "arg_"}},
+         crosscheck=False,
+         note="f is the decorated function nullable_ (the only use of @fixpoint); termination is not proved")
